@@ -41,6 +41,25 @@ CHECKS.update({
 "C15":("exploration","Cookie matrix (node / acceptor / route cookies, limits, flags) between two real nodes over simulated TCP with agreement checks on both ends; an adversary without the cookie plays silence, garbage, truncation, oversized length, a forged handshake with made-up digests and byte-exact replays of recorded Hello/Introduce and Join transcripts followed by a forged message frame; permission histories (Enable/Disable Spawn and ApplicationStart with node lists) exercised by two peers against a reference table, including environment exposure."),
 "C16":("exploration","A live three-node cluster with background traffic receives 1-8 units of mutated traffic (bit flips, truncation, length/type/order fields, splices, garbage, compressed envelopes with lying sizes, mutated handshakes) derived from frames captured in the same run and injected into a live link or a fresh dial; oracles: no process crash, quiescence within the step budget, bounded allocation per unit, bystander connection / stream / local processes unaffected, re-encode agreement of whatever still decodes."),
 })
+
+EXTRA={
+"C02":" A second receiver may be in the middle of SpawnRegister (Init with scheduling points) while senders already address its name; a panic raised by repository code counts as a send that neither succeeded nor failed.",
+"C04":" Scripted scenarios: name reuse by a successor, and relations taken on a name whose process is still inside its Init (which then fails or succeeds).",
+"C05":" Observers include top-level trapping actors watching the registered name; every observer is notified exactly once.",
+"C06":" Shared event names are claimed concurrently (same model), meta-processes of terminated owners are audited, a live owner's name must resolve to it, and a panic raised by repository code while resolving is a violation.",
+"C07":" One case in four runs the callees on a second real node over the simulated network (latency, pooled links with skew, loss of one link).",
+"C09":" Terminations that need no restart and DisableChild/EnableChild are mixed into the schedule and must not use up the allowance.",
+"C10":" With Node.Stop as the final action unrelated processes may spawn further processes while the stop is running.",
+"C13":" SendWithPriority takes part in the streams; 30 simulated seconds after a link cut fresh processes spread over all pooled links write again and nothing of that may be lost.",
+"C14":" Reverse relations (a local target watched from the remote node and by a local bystander), a watcher that subscribes again inside every node-down handler, important sends with identifiers of the old incarnation; nodes start in different simulated seconds.",
+"C15":" Plain and TLS acceptors (the adversary speaks TLS, replays at once and frame by frame, also a departed node's plain handshake against the TLS acceptor); requests that name a process of another peer as the parent.",
+"C16":" Also inflated counts in frames and in well-formed pre-authentication handshake values (nested arrays), frames cut short with a matching length field, and the offending connection must be closed or working again when the stream stayed in step.",
+"C17":" One case in four starts the application from a second node over the simulated network.",
+"C18":" Consumers on up to two further nodes, one of them with a message size limit that some publications exceed; a subscription that succeeded is notified exactly once when the event ends.",
+}
+for k,v in EXTRA.items():
+    lvl,txt=CHECKS[k]
+    CHECKS[k]=(lvl,txt+v)
 NA={"C11":"EDF round trip is a statement about a pure function of the value and an explicitly passed cache configuration: no schedule, clock, fault, crash point or second party is involved, so deterministic simulation with fault injection has nothing to decide (values sent through C12's simulated cluster exercise it incidentally; no C11 claim is derived from that)."}
 def chk(pid):
     level,text=CHECKS[pid]
